@@ -1,11 +1,39 @@
 """Library-level properties decided by the in-process harness `vh`:
 C01, C05, C16, C17, C18, C19, C20 (CLI stages are driven by vh as well)."""
-from common import Result, build, finish, run_vh, seed
+from common import Result, build, finish, run_vh, run_vh_miri, seed
 
 
 def dseed():
     """debug-profile stages explore other cases than the release stages"""
     return seed() + 1000003
+
+def miri_stage(r, sub, pid, shards=16, cases=3):
+    """Thorough tier only: a small shard of the same workload under the Miri interpreter."""
+    reps, bads, skipped = run_vh_miri(sub, shards=shards, cases=cases)
+    if skipped:
+        r.extra["miri_stage"] = {"skipped": skipped}
+        return
+    ops = 0
+    for j in reps:
+        r.merge_vh(j, "miri:")
+        ops += j["evaluations"]
+    for sig, det in bads:
+        r.violation("%s|%s" % (pid, sig), det)
+    r.extra["miri_stage"] = {"shards_completed": len(reps), "shards": shards, "evaluations": ops, "flags": "-Zmiri-tree-borrows (crossbeam-epoch, a rayon dependency, is not Stacked-Borrows clean), isolation disabled"}
+
+
+def valgrind_stage(r, sub, cases):
+    """Thorough tier only: the CLI stage again with `copia` under valgrind memcheck (exit 97 = report)."""
+    import shutil as _sh
+    if not _sh.which("valgrind"):
+        r.extra["valgrind_stage"] = {"skipped": "valgrind not found"}
+        return
+    from common import COPIA_VG
+    build("cli-vg")
+    j = run_vh(sub, "quick", stage="cli", cases=cases, sd=seed() + 77, env_extra={"VH_VALGRIND": "1", "COPIA_BIN": COPIA_VG})
+    r.merge_vh(j, "valgrind-cli:")
+    r.extra["valgrind_stage"] = {"copia_runs_under_memcheck": j["evaluations"], "tool": "valgrind memcheck --error-exitcode=97 (no RLIMIT_AS in this stage); binary = release build with -C target-cpu=x86-64-v2 because valgrind 3.19 cannot run the repository's target-cpu=native code"}
+
 
 ASSUME_LIB = [
     "the reference implementations in harness/src/refs.rs encode the property text correctly",
@@ -20,6 +48,8 @@ def c17(tier):
     r.merge_vh(run_vh("c17", tier, cases=5000 if th else 320), "release:")
     r.merge_vh(run_vh("c17", tier, profile="debug", cases=1500 if th else 100, sd=dseed()), "debug:")
     r.assumptions = ASSUME_LIB + ["only proper slides are generated (old byte = the byte leaving a non-empty window)"]
+    if tier == "thorough":
+        miri_stage(r, "c17", "C17")
     finish(r, tier)
 
 
@@ -29,6 +59,8 @@ def c16(tier):
     th = tier == "thorough"
     r.merge_vh(run_vh("c16", tier, cases=2000000 if th else 200000), "release:")
     r.assumptions = ASSUME_LIB
+    if tier == "thorough":
+        miri_stage(r, "c16", "C16")
     finish(r, tier)
 
 
@@ -40,6 +72,10 @@ def c01(tier):
     r.merge_vh(run_vh("c01", tier, stage="cli", cases=3000 if th else 200), "cli:")
     r.merge_vh(run_vh("c01", tier, stage="lib", profile="debug", cases=30000 if th else 3000, sd=dseed()), "debug-lib:")
     r.assumptions = ASSUME_LIB + ["sizes stop at 2 MiB; u32 copy-length saturation (4 GiB) is out of reach"]
+    if tier == "thorough":
+        miri_stage(r, "c01", "C01")
+    if tier == "thorough":
+        valgrind_stage(r, "c01", 24)
     finish(r, tier)
 
 
@@ -51,6 +87,10 @@ def c05(tier):
     r.merge_vh(run_vh("c05", tier, stage="lib", profile="debug", cases=500000 if th else 60000, sd=dseed()), "debug-lib:")
     r.merge_vh(run_vh("c05", tier, stage="cli", cases=5000 if th else 600), "cli:")
     r.assumptions = ASSUME_LIB + ["no address-space limit is imposed here (see C20)"]
+    if tier == "thorough":
+        miri_stage(r, "c05", "C05")
+    if tier == "thorough":
+        valgrind_stage(r, "c05", 200)
     finish(r, tier)
 
 
@@ -82,4 +122,8 @@ def c20(tier):
     r.merge_vh(run_vh("c20", tier, stage="lib", profile="debug", cases=10000 if th else 1000, sd=dseed()), "debug-lib:")
     r.merge_vh(run_vh("c20", tier, stage="cli"), "cli:")
     r.assumptions = ASSUME_LIB + ["RLIMIT_AS = 2 GiB is far above what a valid run on these inputs needs; watchdog expiry is inconclusive, never a violation"]
+    if tier == "thorough":
+        miri_stage(r, "c20", "C20")
+    if tier == "thorough":
+        valgrind_stage(r, "c20", 4)
     finish(r, tier)
